@@ -273,6 +273,21 @@ fn fr_big_str(v: &Fr, radix: u32) -> String {
 
 // ------------------------------------------------------------------------------------------------ C14
 #[cfg(not(feature = "stateless"))]
+/// a reader that returns at most `chunk` bytes per call
+pub struct Chunked {
+    pub data: Vec<u8>,
+    pub pos: usize,
+    pub chunk: usize,
+}
+impl std::io::Read for Chunked {
+    fn read(&mut self, buf: &mut [u8]) -> std::io::Result<usize> {
+        let n = buf.len().min(self.chunk).min(self.data.len() - self.pos);
+        buf[..n].copy_from_slice(&self.data[self.pos..self.pos + n]);
+        self.pos += n;
+        Ok(n)
+    }
+}
+
 pub fn run_keygen(seed: u64, proc_tag: u64, unseeded: usize, out: &mut Vec<Value>, it: &mut Interner) {
     use rln::public::RLN;
     use std::io::Cursor;
@@ -338,6 +353,17 @@ pub fn run_keygen(seed: u64, proc_tag: u64, unseeded: usize, out: &mut Vec<Value
             let mut o = Vec::new();
             let rr = catch(AssertUnwindSafe(|| rln.seeded_extended_key_gen(Cursor::new(s.clone()), &mut o)));
             record(evs, "rln", Some(s), true, thr, rr.map(|_| decode(&o)), Some(o.clone()));
+            // ... and the same seed delivered by a reader that hands out a few bytes per call (a pipe, a chained reader)
+            if thr == 0 {
+                for chunk in [1usize, 7, 64] {
+                    let mut o = Vec::new();
+                    let rr = catch(AssertUnwindSafe(|| rln.seeded_key_gen(Chunked { data: s.clone(), pos: 0, chunk }, &mut o)));
+                    record(evs, "rln", Some(s), false, thr, rr.map(|_| decode(&o)), Some(o.clone()));
+                    let mut o = Vec::new();
+                    let rr = catch(AssertUnwindSafe(|| rln.seeded_extended_key_gen(Chunked { data: s.clone(), pos: 0, chunk }, &mut o)));
+                    record(evs, "rln", Some(s), true, thr, rr.map(|_| decode(&o)), Some(o.clone()));
+                }
+            }
             // FFI
             let ctx: *const RLN = rln;
             let ib = rln::ffi::Buffer { ptr: s.as_ptr(), len: s.len() };
